@@ -16,7 +16,7 @@ def generate(c, registry):
         fnode, h = load_function(c.path, c.qual)
     except (LookupError, FileNotFoundError, SyntaxError) as e:
         return dict(function=c.target, hash=None, status="missing", why=str(e), results=[], notes=[], seconds=0)
-    eng = Engine(c, registry, fnode, None)
+    eng = Engine(c, getattr(c, "registry", None) or registry, fnode, None)
     try:
         eng.run()
     except OutOfSubset as e:
@@ -58,7 +58,7 @@ def verify_contract(c, registry, timeout_ms=10000, verbose=False):
         fnode, h = load_function(c.path, c.qual)
     except (LookupError, FileNotFoundError, SyntaxError) as e:
         return dict(function=c.target, hash=None, status="missing", why=str(e), results=[], notes=[], seconds=0)
-    eng = Engine(c, registry, fnode, None, verbose)
+    eng = Engine(c, getattr(c, "registry", None) or registry, fnode, None, verbose)
     try:
         eng.run()
     except OutOfSubset as e:
